@@ -554,6 +554,14 @@ class C12(Check):
                     return
             except Exception:
                 pass
+        # write-ahead: whatever the killed run managed to change on the device must have been recorded before, so an
+        # accepted replay brings the whole device back (apart from what e2undo itself rewrites to mark the filesystem)
+        rest = [s for s in range(0, min(L, len(after)), 512) if after[s:s + 512] != target[s:s + 512] and (s // bs) not in tolerated]
+        if rest:
+            o.violate("kill|not_written_ahead", "%s; e2undo exits 0 and every block the undo file lists holds its pre-image, but %d other "
+                      "sector(s) the killed run had overwritten were never recorded, first at device byte %d (fs block %d): %s" %
+                      (at, len(rest), rest[0], rest[0] // bs, where), skey="kill|not_written_ahead")
+            return
         o.stats["probe.kill_restored"] += 1
 
     def shrink(self, spec, v):
